@@ -125,7 +125,8 @@ class FakeProcess:
 
     def join(self, timeout: Any = None) -> None:
         assert WORLD is not None
-        if getattr(self, "stopping", False) and timeout is not None:
+        slow = bool(WORLD.scn["cfg"].get("slow_stop"))
+        if (getattr(self, "stopping", False) or (slow and getattr(self, "signalled", False) and self.alive)) and timeout is not None:
             WORLD.rec("join", pid=self.pid or 0, s="timeout")     # gave up waiting: the process is still running
             return
         WORLD.rec("join", pid=self.pid or 0)
@@ -196,6 +197,7 @@ def fake_kill(pid: int, sig: int) -> None:
         w.rec("kill", pid=pid, s="lookup_error")
         raise ProcessLookupError(pid)
     w.rec("kill", pid=pid, s="ok")
+    p.signalled = True           # told to stop; a worker that drains its tasks takes a while to go away
 
 
 class _CurProc:
